@@ -41,7 +41,7 @@ def one(seed, checks, threads, kind="seeded"):
             res[c] = {"exit": rc, "kind": kind.group(1) if kind else "", "inconclusive": inc[:200], "secs": round(time.time() - t0, 1)}
     finally:
         sh(f"git -C /repo worktree remove --force {wt}"); shutil.rmtree(wt, ignore_errors=True)
-        for d in (f"{VERIF}/harness/target-mut-cross-{seed}", f"{VERIF}/harness/target-mut-cross-{seed}-rel-nohooks", f"{VERIF}/harness/target-mut-cross-{seed}-rel-hooks", f"{VERIF}/harness/target-mut-cross-{seed}-fuzz", f"{VERIF}/harness/target-mut-cross-{seed}-dev", f"{SCR}/ev-{seed}", f"{SCR}/rp-{seed}"):
+        for d in (f"{VERIF}/harness/target-mut-cross-{seed}", f"{VERIF}/harness/target-mut-cross-{seed}-rel-nohooks", f"{VERIF}/harness/target-mut-cross-{seed}-rel-hooks", f"{VERIF}/harness/target-mut-cross-{seed}-fuzz", f"{VERIF}/harness/target-mut-cross-{seed}-dev", f"{VERIF}/harness/target-mut-cross-{seed}-rel-plain", f"{SCR}/ev-{seed}", f"{SCR}/rp-{seed}"):
             shutil.rmtree(d, ignore_errors=True)
     return seed, res
 
